@@ -28,7 +28,10 @@ def gen_case(rng, opts=None):
     shape = opts.get("shape") or rng.choice(["flat", "flat", "chain", "assoc"])
     cfg = srvcase.gen_config(rng, {"shape": shape, "classes": False, "commits": False, "mappings": False,
                                    "strkeys": False, "integrity": True, "ntypes": opts.get("ntypes")})
-    if "p_revnames" in opts and rng.random() < opts["p_revnames"]:
+    # (options added later draw from a side stream derived from the state of the main one, so that
+    #  the histories generated for a given seed stay what they were)
+    side = random.Random(repr(rng.getstate()[1][:8]))
+    if "p_revnames" in opts and side.random() < opts["p_revnames"]:
         # declaration order must not coincide with the alphabetical order of the type names
         m = dict(zip(["Ta", "Tb", "Tc", "Td"], ["Tz", "Ty", "Tx", "Tw"]))
         for t in cfg["types"]:
@@ -90,8 +93,8 @@ def gen_case(rng, opts=None):
             "fkpolicy": opts.get("fkpolicy") or rng.choice(["disabled", "on_remove_event", "on_every_event"]),
             "remediation": opts.get("remediation") or "disabled",
             "cache": {"enable_compression": False, "backup_count": 0}}
-    if rng.random() < opts.get("p_schema_bump", 0.0) and npolls >= 2:
-        case["schema_bump"] = rng.randint(1, npolls - 1)
+    if side.random() < opts.get("p_schema_bump", 0.0) and npolls >= 2:
+        case["schema_bump"] = side.randint(1, npolls - 1)
     return case
 
 
